@@ -11,7 +11,7 @@ CONSTANTS MaxDev
 
 S(i) == JStr("salt" \o ToString(i))
 Shapes == {"good", "len0", "len1", "len2", "len3", "len4", "len5", "str", "obj", "num", "name-num", "name-null", "name-_sd", "name-dots", "name-vis", "name-dup"}
-Flags == {"dup-within", "dup-across", "dup-nested", "dup-arrays", "nonstring-entry", "ph-extra", "ph-nonstring", "sd-notarray", "sd-empty"}
+Flags == {"dup-within", "dup-across", "dup-nested", "dup-arrays", "dup-junk", "nonstring-entry", "ph-extra", "ph-nonstring", "sd-notarray", "sd-empty"}
 Algs == {"absent", "sha-512", "number", "null"}
 Devs == {[k |-> "shape", slot |-> s, shape |-> sh] : s \in 1..5, sh \in Shapes \ {"good"}}
         \cup {[k |-> "flag", f |-> f] : f \in Flags} \cup {[k |-> "alg", v |-> a] : a \in Algs} \cup {[k |-> "drop", slot |-> s] : s \in 1..5} \cup {[k |-> "dropall"]}
@@ -53,7 +53,9 @@ Build(D) ==
       g1 == JStr(d1.dg) g2 == JStr(d2.dg) g3 == JStr(d3.dg)
       sd == IF Flag(D, "sd-notarray") THEN JStr("not an array")
             ELSE IF Flag(D, "sd-empty") THEN JArr(<<>>)
-            ELSE JArr((IF Flag(D, "nonstring-entry") THEN <<g1, JNum("7"), g2>> ELSE <<g1, g2>>) \o (IF Flag(D, "dup-within") THEN <<g1>> ELSE <<>>))
+            ELSE JArr((IF Flag(D, "nonstring-entry") THEN <<g1, JNum("7"), g2>> ELSE <<g1, g2>>) \o (IF Flag(D, "dup-within") THEN <<g1>> ELSE <<>>)
+                      \* (dup-junk: a repeated entry that is a string but not the text of any SHA-256 value - still the same value twice)
+                      \o (IF Flag(D, "dup-junk") THEN <<JStr("not-a-digest"), JStr("not-a-digest")>> ELSE <<>>))
       phl == IF Flag(D, "ph-nonstring") THEN JObj([k \in {"..."} |-> JNum("7")])
             ELSE IF Flag(D, "ph-extra") THEN JObj([k \in {"...", "x"} |-> IF k = "x" THEN JNum("1") ELSE g3])
             ELSE JObj([k \in {"..."} |-> IF Flag(D, "dup-across") THEN g2 ELSE g3])
@@ -95,6 +97,7 @@ MustReject(D) ==
   \/ Flag(D, "dup-arrays") /\ PhIsPlaceholder(D) /\ ~Flag(D, "dup-across")                      \* g3 in arr and in grid
   \/ Flag(D, "dup-arrays") /\ ~(PhIsPlaceholder(D) /\ ~Flag(D, "dup-across")) /\ ~Dropped(D, 3) /\ ShapeOf(D, 3) \in BadShapeElem   \* d3 reachable through grid only
   \/ SdSearched(D) /\ Flag(D, "dup-within")
+  \/ SdSearched(D) /\ Flag(D, "dup-junk")
   \/ PhIsPlaceholder(D) /\ Flag(D, "dup-across") /\ (SdSearched(D) \/ (~Dropped(D, 2) /\ ShapeOf(D, 2) # "len2"))   \* g2 twice, or a member disclosure behind "..."
   \/ Good1(D) /\ SdSearched(D) /\ Flag(D, "dup-nested")
 Inv_C08 == \A i \in DOMAIN obs : IsRaw => ((obs[i].r.v = "reject") = MustReject(ghost.devs))
